@@ -247,7 +247,30 @@ class ExprMixin:
         return self.binop(node.op, a, b, fr, node)
 
     def ev_DictComp(self, node, fr):
-        raise Unsupported("dict comprehension (only progress-bar bookkeeping named in the contract's dropped_locals is dropped)")
+        """{k(x): v(x) for x in xs} with integer-identified keys: a dict value (sequence of (key, value) pairs in iteration order),
+        under the generated obligation that the keys are pairwise distinct - colliding keys would collapse entries, which the
+        sequence model does not represent.  Other key types stay unsupported."""
+        if fr.spec:
+            raise Unsupported("dict comprehension in a specification")
+        elt = ast.Tuple(elts=[node.key, node.value], ctx=ast.Load())
+        ast.copy_location(elt, node)
+        R = self.comprehension(elt, node.generators, fr, 'dict', node)
+        if isinstance(R, VTuple):
+            keys = [it.items[0] for it in R.items]
+            if not all(isinstance(k, VInt) for k in keys):
+                raise Unsupported("dict comprehension with non-integer keys")
+            for a in range(len(keys)):
+                for b in range(a + 1, len(keys)):
+                    self.oblige('dict-keys-distinct', keys[a].z != keys[b].z, fr, node, info='keys of a dict comprehension are distinct')
+            return self.materialize(R) if R.items else R
+        k0 = seq_get(R, z3.IntVal(0)).items[0]
+        if not isinstance(k0, VInt):
+            raise Unsupported("dict comprehension with non-integer keys")
+        i, j = self.fresh_int('di'), self.fresh_int('dj')
+        ki, kj = seq_get(R, i).items[0].z, seq_get(R, j).items[0].z
+        self.oblige('dict-keys-distinct', z3.ForAll([i, j], z3.Implies(z3.And(i >= 0, i < j, j < R.n), ki != kj)), fr, node,
+                    info='keys of a dict comprehension are distinct')
+        return R
 
     def binop(self, op, a, b, fr, node):
         if (isinstance(a, VOpaque) and a.tag in ('dropped', 'opaque')) or \
